@@ -292,7 +292,50 @@ func c14Scenarios() []*explore.Scenario {
 	for _, sp := range c14Specs() {
 		out = append(out, c14Scenario(sp))
 	}
+	for _, sp := range c14Specs() {
+		if sp.Dev == 0 {
+			out = append(out, c14RaceScenario(sp))
+		}
+	}
 	return out
+}
+
+// c14RaceScenario: the same collisions on a session over a file system
+// without shared mutable state, tasks recording nothing: the race detector
+// is the oracle (race mode).
+func c14RaceScenario(sp c14Spec) *explore.Scenario {
+	spec := sp
+	return &explore.Scenario{
+		Name:  "race/" + spec.Name,
+		Cache: true,
+		Body: func() any {
+			sess := p9p.SFileSys(mockfs.NewQuiet())
+			ctx := context.Background()
+			for _, o := range spec.Setup {
+				applyOp(ctx, sess, o)
+			}
+			for ti, ops := range spec.Tasks {
+				ops := ops
+				vsched.Go(fmt.Sprintf("client%d", ti), func() {
+					for _, o := range ops {
+						applyOp(ctx, sess, o)
+					}
+				})
+			}
+			// one more client: the session is stopped while they run
+			if strings.HasPrefix(spec.Name, "clunk|") {
+				vsched.Go("stop", func() { sess.Stop(nil) })
+			}
+			return nil
+		},
+		Check: func(state any, e *vsched.Exec) (string, []explore.Finding) {
+			var fs []explore.Finding
+			if len(e.Panics) > 0 {
+				fs = append(fs, explore.Finding{Sig: "C14:race-mode:panic", Msg: panicList(e)})
+			}
+			return "ran", fs
+		},
+	}
 }
 
 func c14(c *core.Ctx) {
@@ -309,4 +352,15 @@ func c14(c *core.Ctx) {
 		}
 	}
 	runPlans(c, plans)
+	var raceScs []*explore.Scenario
+	for _, sc := range c14Scenarios() {
+		if strings.HasPrefix(sc.Name, "race/") {
+			raceScs = append(raceScs, sc)
+		}
+	}
+	rb := 2
+	if !c.Quick() {
+		rb = 6
+	}
+	runRaceMode(c, raceScs, rb)
 }
